@@ -273,11 +273,15 @@ def tables_rule(rep, cfg):
                     e = e.args[0]
                 if e.op == "convert":
                     e = e.args[2]
-                if e is item:
+                def is_item(x):
+                    while x.op == "cast" and x.args[0] in ("u64", "u128", "usize"):
+                        x = x.args[1]        # a widening cast of the row index
+                    return x is item
+                if is_item(e):
                     mults.add(1)
-                elif e.op == "imul" and e.args[0] is item and Tm.is_lit(e.args[1]):
+                elif e.op == "imul" and is_item(e.args[0]) and Tm.is_lit(e.args[1]):
                     mults.add(e.args[1].args[0])
-                elif e.op == "imul" and e.args[1] is item and Tm.is_lit(e.args[0]):
+                elif e.op == "imul" and is_item(e.args[1]) and Tm.is_lit(e.args[0]):
                     mults.add(e.args[0].args[0])
         return mults
 
@@ -343,6 +347,9 @@ def tables_rule(rep, cfg):
         for u in Tm.subterms(ff[0][3]):
             if u.op == "map_insert" and u.args[1].op == "inv" and u.args[2] is ff[0][3].args[1]:
                 ins_ok = True
+        nd = ff[0][3]
+        if nd.op == "seq_map_t" and nd.args[1].op == "tuple" and len(nd.args[1].args) == 2 and nd.args[1].args[0].op == "inv" and nd.args[1].args[1] is nd.args[0]:
+            ins_ok = True      # (0..256).map(|nu| (key(nu)^-1, nu)).collect::<HashMap<_, _>>()
     rep.ob("TABLES/%s/s_lookup" % cfg.name, ok and ins_ok,
            "s_lookup must map (G^(nu * 2^(N-W)))^-1 -> nu for nu in 0..256 (N-W = %d); loop facts %s, inserts inverse->nu: %s" % (
                N_ - 8, [(Tm.show(a), Tm.show(b), sorted(m)) for a, b, m, _ in ff], ins_ok), where=cfg.where(p))
@@ -444,15 +451,36 @@ def min_rules(rep, cfg):
     X = mk("param", "self")
     c5 = cfg.prog.consts.get("fields::fq::<impl fields::fq::u32::wrapper::Fq>::QUADRATIC_NON_RESIDUE_TO_TRACE")
     c5v = K.felt(c5["value"]["val"], "fq")[1] if c5 else None
-    if not (v.op == "proj" and v.args[0].op == "fold"):
-        probs.append("result is not the state of the outer loop: %s" % Tm.show(v, maxdepth=3))
-    else:
-        outer = v.args[0]
-        it, i, accs, inits, nexts = outer.args
+    desc = None
+    used_while = False
+    if v.op == "proj" and v.args[0].op == "fold":
+        it, i, accs, inits, nexts = v.args[0].args
         # iterator: (2..=c1).rev()
         okit = it.op == "rev" and it.args[0].op == "range_incl" and it.args[0].args[0] is lit(2) and it.args[0].args[1] is lit(s)
+        desc = (okit, Tm.show(it, maxdepth=4), i, accs, inits, nexts, v.args[1])
+    else:
+        # the same loop driven by a counter: `let mut i = c1; while i >= 2 { ..; i -= 1 }` - one iteration's state transformer
+        for pc_, kind_, a_, site_ in o.effects:
+            if kind_ != "while_state" or v not in a_[1] or any(x is None for x in a_[2]):
+                continue
+            ent_, syms_, post_ = a_
+            ctr = [k for k, c_ in enumerate(syms_) if ent_[k] is lit(s) and post_[k] is Tm.intop("isub", c_, lit(1))]
+            if len(ctr) != 1:
+                continue
+            ci = ctr[0]
+            cs = syms_[ci]
+            guards = site_.get("pc_after") or ()
+            okit = any(g is mk("ge", cs, lit(2)) or g is mk("gt", cs, lit(1)) for g in guards)
+            keep = [k for k in range(len(syms_)) if k != ci]
+            desc = (okit, "while %s" % [Tm.show(g, maxdepth=3) for g in guards], cs, tuple(syms_[k] for k in keep), tuple(ent_[k] for k in keep),
+                    tuple(post_[k] for k in keep), [syms_[k] for k in keep].index(v))
+            used_while = True
+    if desc is None:
+        probs.append("result is not the state of the outer loop: %s" % Tm.show(v, maxdepth=3))
+    else:
+        okit, it_s, i, accs, inits, nexts, ret_idx = desc
         if not okit:
-            probs.append("outer loop must run i = c1, c1-1, ..., 2 with c1 = %d; iterator %s" % (s, Tm.show(it, maxdepth=4)))
+            probs.append("outer loop must run i = c1, c1-1, ..., 2 with c1 = %d; iterator %s" % (s, it_s))
         # identify carried vars by their initial values
         z0p = mk("pow", X, None)
         roles = {}
@@ -484,7 +512,7 @@ def min_rules(rep, cfg):
         if set(roles) != {"z", "t", "b", "c"}:
             probs.append("initial state must be z = x^c3 * x, t = z0^2 * x, b = t, c = c5 (exact order 2^%d); identified roles: %s" % (s, sorted(roles)))
         else:
-            if v.args[1] != roles["z"]:
+            if ret_idx != roles["z"]:
                 probs.append("must return z")
             z_, t_, b_, c_ = [accs[roles[r]] for r in ("z", "t", "b", "c")]
             nb = nexts[roles["b"]]
@@ -528,6 +556,8 @@ def min_rules(rep, cfg):
                 if nb is not nt:
                     probs.append("step 12: b = t")
     for u in o.unmodelled:
+        if used_while and u.startswith("unmodelled loop (While)"):
+            continue        # that loop is the one judged above through its state transformer
         probs.append("construct outside the template: " + u)
     rep.ob("TS/M/our_sqrt", not probs, "our_sqrt must follow the constant-time Tonelli-Shanks template (draft-irtf-cfrg-hash-to-curve App. I.4): " +
            ("template matched" if not probs else "; ".join(probs[:4])), where=cfg.where(ps), sample={"obligation": "TS/M/our_sqrt", "problems": probs[:3]})
